@@ -82,10 +82,14 @@ type Op struct {
 	Real  bool     `json:"real,omitempty"`  // loop: real clock (thorough tier) instead of a stepped fixed clock
 	Jump  int64    `json:"jump,omitempty"`  // loop: the fixed clock jumps forward by this many seconds while the boot tick reads its entries
 	// observations
-	Ticks  []TickObs   `json:"ticks,omitempty"` // loop: what each tick of the daemon's loop did
-	Calls  [][2]string `json:"calls"`
-	Alive  bool        `json:"alive"`
-	Synced bool        `json:"synced"`
+	Ticks   []TickObs   `json:"ticks,omitempty"`   // loop: what each tick of the daemon's loop did
+	Block   []string    `json:"block,omitempty"`   // tick (input): the Start of these DAG files does not return until the tick has been observed (a long run)
+	Late    [][2]string `json:"late,omitempty"`    // tick with block: calls that arrived only after the blocked Start had been released
+	Hung    bool        `json:"hung,omitempty"`    // the tick did not return within the watchdog deadline (daemon blocked)
+	Skipped bool        `json:"skipped,omitempty"` // not executed: the daemon of this history hangs
+	Calls   [][2]string `json:"calls"`
+	Alive   bool        `json:"alive"`
+	Synced  bool        `json:"synced"`
 }
 
 // TickObs: one tick produced by the daemon's own loop (Scheduler.start: nextTick + timer.Reset)
@@ -112,7 +116,9 @@ type Case struct {
 	Files   []FileC `json:"files,omitempty"`
 	Ops     []Op    `json:"ops,omitempty"`
 	Live    bool    `json:"live,omitempty"`
-	Crashed int     `json:"crashed"` // index of the op at which the daemon process died (watcher goroutine), -1 none
+	Hung    bool    `json:"hung,omitempty"`    // a tick of this history hung; the ops after it were skipped
+	Skipped bool    `json:"skipped,omitempty"` // history not run at all: too many hung histories before it
+	Crashed int     `json:"crashed"`           // index of the op at which the daemon process died (watcher goroutine), -1 none
 	Note    string  `json:"note,omitempty"`
 }
 
@@ -684,10 +690,13 @@ type fakeClient struct {
 	calls         [][2]string
 	live          bool
 	wall          int64
-	callTimes     []time.Time // real time of each call since the last endTick
-	firstCallAt   time.Time   // real time of the first call since the last endTick
-	suspCalls     int         // entryReader.Read asks once per loaded DAG: tells that a tick has read its entries
-	onRead        func()      // run once, inside the next entryReader.Read (under mu)
+	callTimes     []time.Time     // real time of each call since the last endTick
+	firstCallAt   time.Time       // real time of the first call since the last endTick
+	suspCalls     int             // entryReader.Read asks once per loaded DAG: tells that a tick has read its entries
+	onRead        func()          // run once, inside the next entryReader.Read (under mu)
+	block         map[string]bool // DAG files whose Start blocks until release is closed
+	release       chan struct{}
+	blockedNow    int
 }
 
 func (f *fakeClient) status(d *dag.DAG) (*model.Status, error) {
@@ -757,6 +766,19 @@ func (f *fakeClient) apply(kind, name string) {
 
 func (f *fakeClient) Start(d *dag.DAG, _ client.StartOptions) error {
 	f.record("start", d)
+	// client.Start returns when the run has ended: a DAG named in `block` keeps its caller until released
+	f.mu.Lock()
+	ch, blocked := f.release, f.block[filepath.Base(d.Location)]
+	if blocked {
+		f.blockedNow++
+	}
+	f.mu.Unlock()
+	if blocked && ch != nil {
+		<-ch
+		f.mu.Lock()
+		f.blockedNow--
+		f.mu.Unlock()
+	}
 	return nil
 }
 func (f *fakeClient) Stop(d *dag.DAG) error { f.record("stop", d); return nil }
@@ -884,6 +906,38 @@ func jobsRunning() bool {
 	n := runtime.Stack(stackBuf, true)
 	return n == len(stackBuf) || bytes.Contains(stackBuf[:n], []byte("(*Scheduler).run"))
 }
+
+// runGoroutines counts the goroutines spawned by (*Scheduler).run that still exist.
+func runGoroutines() int {
+	n := runtime.Stack(stackBuf, true)
+	if n == len(stackBuf) {
+		return 1 << 20
+	}
+	k := 0
+	for _, g := range bytes.Split(stackBuf[:n], []byte("\n\n")) {
+		if bytes.Contains(g, []byte("(*Scheduler).run")) {
+			k++
+		}
+	}
+	return k
+}
+
+func sortCalls(calls [][2]string) [][2]string {
+	out := append([][2]string{}, calls...)
+	sort.Slice(out, func(i, j int) bool {
+		if out[i][1] != out[j][1] {
+			return out[i][1] < out[j][1]
+		}
+		return out[i][0] < out[j][0]
+	})
+	return out
+}
+
+const tickDeadline = 3 * time.Second
+
+var capHung bool // generation mode only: stop running histories after a few hung ones
+
+var hungSeqs int // histories in which the daemon hung so far (the driver stops running histories after a few)
 
 // waitQuiet returns when the goroutines of the tick have ended: none of them is left on any stack and the number
 // of goroutines is back to what it was before the tick.
@@ -1159,7 +1213,7 @@ func barrier(dir string, lg *evLogger, fresh bool) bool {
 			<-lg.ch
 		}
 	}
-	tries, limit := 1, 8*time.Second
+	tries, limit := 1, 5*time.Second
 	if fresh {
 		tries, limit = 2000, 2*time.Millisecond
 	}
@@ -1230,13 +1284,14 @@ func runSeq(c *Case, rs *resume, flush func(i int, op *Op, fc *fakeClient)) {
 	c.Crashed = -1
 	tmpn := 0
 	booted := false
+	stuck, hung := false, false // the watcher did not answer a barrier / a tick did not return
 	for i := from; i < len(c.Ops); i++ {
 		op := &c.Ops[i]
 		op.Calls, op.Synced = [][2]string{}, true
 		switch op.Op {
 		case "restart":
 			stop()
-			booted = false
+			booted, stuck = false, false
 			lg = &evLogger{ch: make(chan string, 256)} // the previous instance's watcher may still be winding down
 			d = newDaemon(dir, fc, lg)
 			if d != nil {
@@ -1288,9 +1343,59 @@ func runSeq(c *Case, rs *resume, flush func(i int, op *Op, fc *fakeClient)) {
 				fc.mu.Unlock()
 				scheduler.VerifSetFixedTime(time.Unix(op.Wall, 0).UTC())
 				base := runtime.NumGoroutine()
-				d.sc.VerifRunTick(time.Unix(op.M*60, 0).UTC())
-				waitQuiet(base)
-				op.Calls = fc.endTick()
+				if len(op.Block) > 0 {
+					fc.mu.Lock()
+					fc.block, fc.release = map[string]bool{}, make(chan struct{})
+					for _, b := range op.Block {
+						fc.block[b] = true
+					}
+					fc.mu.Unlock()
+				}
+				// watchdog: a daemon whose entry reader is blocked (lock never released) would keep run() forever
+				ret := make(chan struct{})
+				sc := d.sc
+				go func() {
+					sc.VerifRunTick(time.Unix(op.M*60, 0).UTC())
+					close(ret)
+				}()
+				select {
+				case <-ret:
+				case <-time.After(tickDeadline):
+					op.Hung = true
+				}
+				if op.Hung {
+					op.Calls = fc.endTick()
+					hung = true
+				} else if len(op.Block) > 0 {
+					// the tick has been observed when every goroutine it spawned has ended or sits in a blocked Start
+					deadline := time.Now().Add(3 * time.Second)
+					for calm := 0; calm < 2 && time.Now().Before(deadline); {
+						fc.mu.Lock()
+						b := fc.blockedNow
+						fc.mu.Unlock()
+						if runGoroutines() == b {
+							calm++
+						} else {
+							calm = 0
+						}
+						time.Sleep(50 * time.Microsecond)
+					}
+					fc.mu.Lock()
+					n0 := len(fc.calls)
+					early := sortCalls(fc.calls)
+					close(fc.release)
+					fc.mu.Unlock()
+					waitQuiet(base)
+					fc.mu.Lock()
+					late := sortCalls(fc.calls[n0:])
+					fc.block, fc.release = nil, nil
+					fc.mu.Unlock()
+					fc.endTick()
+					op.Calls, op.Late = early, late
+				} else {
+					waitQuiet(base)
+					op.Calls = fc.endTick()
+				}
 			}
 		case "hist":
 			fc.mu.Lock()
@@ -1330,11 +1435,28 @@ func runSeq(c *Case, rs *resume, flush func(i int, op *Op, fc *fakeClient)) {
 			_ = os.Rename(filepath.Join(dir, op.F), filepath.Join(dir, op.To))
 		}
 		if d != nil && (op.Op == "write" || op.Op == "remove" || op.Op == "rename") {
-			op.Synced = barrier(dir, lg, false)
+			if stuck {
+				op.Synced = false // the watcher already failed to answer once: do not wait for it again
+			} else {
+				op.Synced = barrier(dir, lg, false)
+				stuck = !op.Synced
+			}
 		}
 		op.Alive = d != nil || booted
 		if flush != nil {
 			flush(i, op, fc)
+		}
+		if hung {
+			// the daemon of this history is blocked for good: the remaining ops are not executed
+			c.Hung = true
+			hungSeqs++
+			for j := i + 1; j < len(c.Ops); j++ {
+				c.Ops[j].Calls, c.Ops[j].Synced, c.Ops[j].Skipped, c.Ops[j].Alive = [][2]string{}, true, true, op.Alive
+				if flush != nil {
+					flush(j, &c.Ops[j], fc)
+				}
+			}
+			return
 		}
 	}
 }
@@ -1700,6 +1822,43 @@ func genBoot(r *vh.Rng, k int) Case {
 	return c
 }
 
+// genBlocking: several DAGs due at the same minutes while the Start of one of them does not return (a long run):
+// every other DAG must still get its call in the same tick.
+func genBlocking(r *vh.Rng, k int) Case {
+	c := Case{Kind: "seq", K: k, Stream: "blocking", Crashed: -1}
+	m := 27000000 + int64(r.Next()%4000000)
+	nf := 3 + r.Below(3)
+	names := []string{"d0.yaml", "d1.yaml", "d2.yml", "d3.yaml", "d4.yml"}[:nf]
+	for i, n := range names {
+		var v Val
+		switch {
+		case i > 0 && r.Below(4) == 0:
+			v = mv([]Val{sv("start"), sv("* * * * *")}, []Val{sv("restart"), sv("*/2 * * * *")})
+		case r.Below(3) == 0:
+			v = lv(sv("* * * * *"), sv("*/3 * * * *"))
+		default:
+			v = sv("* * * * *")
+		}
+		c.Files = append(c.Files, FileC{Name: n, C: Content{V: &v}})
+	}
+	c.Ops = append(c.Ops, Op{Op: "restart"})
+	for t := 0; t < 3; t++ {
+		wall := (m+int64(t))*60 + int64(r.Below(20))
+		if t > 0 {
+			for _, n := range names { // the runs of the previous minute have ended
+				h := Hist{Kind: "done", At: (m+int64(t)-1)*60 + 5}
+				c.Ops = append(c.Ops, Op{Op: "hist", F: n, H: &h})
+			}
+		}
+		blk := []string{names[r.Below(nf)]}
+		if r.Below(3) == 0 {
+			blk = append(blk, names[r.Below(nf)])
+		}
+		c.Ops = append(c.Ops, Op{Op: "tick", M: m + int64(t), Wall: wall, Block: blk})
+	}
+	return c
+}
+
 func hasPanicContent(c *Case) bool {
 	chk := func(ct *Content) bool {
 		if ct == nil || ct.V == nil {
@@ -1855,8 +2014,22 @@ func runCase(self, scratch string, c *Case) {
 	case "sched":
 		runSched(c)
 	case "seq":
+		if capHung && hungSeqs >= 4 {
+			// several histories have already shown a daemon that hangs: enough evidence, do not spend 5 s on each
+			c.Skipped, c.Crashed = true, -1
+			for j := range c.Ops {
+				c.Ops[j].Calls, c.Ops[j].Synced, c.Ops[j].Skipped = [][2]string{}, true, true
+			}
+			return
+		}
 		if hasPanicContent(c) {
 			runSeqChild(self, c, scratch)
+			for _, o := range c.Ops {
+				if o.Hung {
+					c.Hung = true
+					hungSeqs++
+				}
+			}
 		} else {
 			runSeq(c, nil, nil)
 		}
@@ -1974,6 +2147,7 @@ func main() {
 		return
 	}
 	thorough := os.Args[2] == "thorough"
+	capHung = true
 	rng := vh.NewRng(vh.SeedFromEnv())
 	zones := zonesAvailable()
 	out.Put(map[string]any{"kind": "meta", "zones": zones, "seed": vh.SeedFromEnv()})
@@ -2044,6 +2218,17 @@ func main() {
 			Ops:   []Op{{Op: "loop", N: 3, Real: true}}}
 		runCase(self, scratch, &c)
 		out.Put(c)
+	}
+	nBlock := 14
+	if thorough {
+		nBlock = 150
+	}
+	for i := 0; i < nBlock; i++ {
+		r := rng.Fork(uint64(k))
+		c := genBlocking(r, k)
+		runCase(self, scratch, &c)
+		out.Put(c)
+		k++
 	}
 	nBoot := 80
 	if thorough {
